@@ -184,6 +184,19 @@ class Injector:
         self._patch(builtins, 'open', open_)
         self._FileProxy = FileProxy
 
+        real_fdopen = os.fdopen
+
+        def fdopen(fd, mode='r', *a, **kw):
+            # a descriptor obtained from mkstemp / os.open turned into a file object: its writes are positions
+            try:
+                target = os.readlink('/proc/self/fd/%d' % fd)
+            except OSError:
+                target = None
+            if target and inj._mine(target) and any(ch in mode for ch in 'wax+'):
+                return FileProxy(real_fdopen(fd, mode, *a, **kw))
+            return real_fdopen(fd, mode, *a, **kw)
+        self._patch(os, 'fdopen', fdopen)
+
         if self.lowlevel:
             real_io_open = io.open
             dead = set()
@@ -362,13 +375,32 @@ def make_backend(kind, scratch):
     raise ValueError(kind)
 
 
+def _reopen(ps):
+    from qupulse.serialization import DictBackend, FilesystemBackend, ZipFileBackend, CachingBackend, PulseStorage
+    be = ps._storage_backend
+    if isinstance(be, FilesystemBackend):
+        be = FilesystemBackend(be._root)
+    elif isinstance(be, ZipFileBackend):
+        be = ZipFileBackend(be._root)
+    elif isinstance(be, CachingBackend):
+        with warnings.catch_warnings():
+            warnings.simplefilter('ignore')
+            be = CachingBackend(FilesystemBackend(be._backend._root))
+    return PulseStorage(be)
+
+
 def apply_op(ps, op, objs, memo):
     """-> 'ok' | 'clash' | 'unser' | 'missing' | 'fault' | 'recursion' ; anything else propagates.
     'recursion': the identity check `o is not self.storage[id]` (or a load) ran into a self-referencing document
     (known finding dup-id-in-transaction / overwrite-creates-cycle); raised before anything is written."""
     try:
         if op['op'] == 'clear':
-            ps.clear()
+            if op.get('how') == 'reopen':
+                # a new PulseStorage (and, for persistent backends, a new backend object) on the same content takes
+                # over: same effect on the cache as clear(); the old objects are dropped
+                ps.__dict__.update(_reopen(ps).__dict__)
+            else:
+                ps.clear()
         elif op['op'] == 'delete':
             del ps[name_of(op['id'])]
         else:
@@ -566,7 +598,11 @@ class _State:
     the objects built for the final operation puts a run back to "the history was just executed"."""
 
     def __init__(self, ps, backend):
-        self.objs = [ps, backend] + ([backend._backend] if hasattr(backend, '_backend') else [])
+        self.objs = []
+        for o in (ps, backend, getattr(ps, '_storage_backend', None)):
+            for x in (o, getattr(o, '_backend', None)):
+                if x is not None and not any(x is y for y in self.objs):
+                    self.objs.append(x)
         self.saved = [self._copy(o.__dict__) for o in self.objs]
 
     @staticmethod
@@ -602,11 +638,28 @@ def _case_rng(case):
     return random.Random(zlib.crc32(json.dumps(case, sort_keys=True, default=str).encode()))
 
 
-def run_case(case, kill_modes=(), real_kills=2, validate=1):
+def select_positions(trace, cap, rng):
+    """the fault positions of the raise runs: all of them, or - above `cap` - the first and last three, every call of
+    an os / shutil / backend level primitive (the steps that can publish) with its neighbours, and a random choice
+    among the remaining ones (mostly consecutive writes into a temporary file)"""
+    n = len(trace)
+    if cap is None or n <= cap:
+        return list(range(n))
+    keep = set(range(3)) | set(range(n - 3, n))
+    for k, name in enumerate(trace):
+        if name.startswith(('os.', 'shutil.', 'backend.')):
+            keep.update(j for j in (k - 2, k - 1, k, k + 1) if 0 <= j < n)
+    rest = [k for k in range(n) if k not in keep]
+    keep.update(rng.sample(rest, min(max(0, cap - len(keep)), len(rest))))
+    return sorted(keep)
+
+
+def run_case(case, kill_modes=(), real_kills=2, validate=1, cap=None):
     """All runs of one case.  The history runs ONCE (no failures); directory and object state are saved; then the
     final operation runs
-      * once without failure and once per primitive with that primitive raising (exception semantics; follow-up
-        operation on the same PulseStorage), each time from the restored state; `validate` of these runs (chosen by a
+      * once without failure and once per primitive (above `cap` positions: per selected primitive, see
+        select_positions) with that primitive raising (exception semantics; follow-up operation on the same
+        PulseStorage), each time from the restored state; `validate` of these runs (chosen by a
         case-determined random generator; None = all) are repeated by `execute` from scratch (new directory, history
         re-run) and must agree;
       * per flush mode once as a SNAPSHOT RUN: no failure, the directory is copied before every position (after
@@ -673,11 +726,12 @@ def run_case(case, kill_modes=(), real_kills=2, validate=1):
                     reset()
 
             r0 = raise_run(None)
-            runs = [raise_run(k) for k in range(r0['count'])]
+            positions = select_positions(r0['trace'], None if case.get('all_positions') else cap, rng)
+            runs = {k: raise_run(k) for k in positions}
             out = {'r0': r0, 'runs': runs, 'kills': [], 'ktrace': [], 'validated': 0}
 
             # independent repetition of some runs (separate directory, history executed again)
-            choices = [None] + list(range(r0['count']))
+            choices = [None] + positions
             picked = choices if validate is None else [rng.choice(choices) for _ in range(validate)]
             for k in picked:
                 ind = execute(case, k)
